@@ -11,13 +11,13 @@ Err(kind) == [kind |-> kind, abv |-> <<>>]
 ErrAbv(kind, a) == [kind |-> kind, abv |-> a]
 
 (* the metric whose abbreviation is spelled exactly by the bytes a *)
-MetricOf(ver, a) ==
-  LET M == {m \in MetricSet(ver) : SB[m] = a}
-  IN  IF M = {} THEN NoMetric ELSE CHOOSE m \in M : TRUE
+(* reverse tables bytes -> name, evaluated once *)
+MetricByBytes == AbvTable
+ValueByBytes == ValTable
 
-ValueOf(ver, m, v) ==
-  LET V == {x \in Values(ver, m) : SB[x] = v}
-  IN  IF V = {} THEN NoMetric ELSE CHOOSE x \in V : TRUE
+MetricOf(ver, a) == IF a \in DOMAIN MetricByBytes[ver] THEN MetricByBytes[ver][a] ELSE NoMetric
+
+ValueOf(ver, m, v) == IF v \in DOMAIN ValueByBytes[ver][m] THEN ValueByBytes[ver][m][v] ELSE NoMetric
 
 (* Set: unknown abbreviation -> *ErrInvalidMetric{abv}; illegal value ->    *)
 (* ErrInvalidMetricValue; in both cases the object is unchanged.  A          *)
